@@ -80,4 +80,71 @@ Goto(ref, est, thr, mu, sigma) ==
                     len == MaxSet(SeqSet(gaps))
                     st == CHOOSE k \in 1..Len(gaps) : gaps[k] = len /\ \A j \in 1..(k - 1) : gaps[j] # len
                 IN  IF 4 * (len - 1) > (N - 2) THEN TrackOK(SubSeqSafe(err, bad[st], bad[st + 1]), mu, sigma) ELSE FALSE
+
+(* ---- Continuity (Hainsworth / Klapuri; Davies et al. sec. 3.4): each estimated beat is assigned to  *)
+(* its nearest annotation (first of equals); it is correct when that annotation is still unused and   *)
+(* both the phase error |offset| / annotation interval and the period error |1 - estimated interval /   *)
+(* annotation interval| are below their thresholds.  CMLc = longest run of correct beats, CMLt = all     *)
+(* correct beats, both divided by max(#annotations, #estimates); AML* = best over the metrical          *)
+(* variations.  Necessarily procedural (the paper defines it by this walk).                              *)
+Nearest1(x, ref) == CHOOSE k \in 1..Len(ref) : /\ \A j \in 1..Len(ref) : AbsR(x - ref[k]) <= AbsR(x - ref[j])
+                                              /\ \A j \in 1..(k - 1) : AbsR(x - ref[j]) > AbsR(x - ref[k])
+INF == <<1, 0>>       \* "infinite" error: never below a threshold
+LtThr(x, thr) == x # INF /\ RLt(x, thr)
+ContBeatOK(ref, est, m, k, pthr, qthr) ==
+  LET md == AbsR(est[m] - ref[k])
+      firstcase == m = 1 \/ k = 1
+      rint == IF firstcase THEN (IF k + 1 <= Len(ref) THEN ref[k + 1] - ref[k] ELSE ref[k] - ref[IF k = 1 THEN Len(ref) ELSE k - 1])
+              ELSE ref[k] - ref[k - 1]
+      eint == IF firstcase THEN (IF m + 1 <= Len(est) THEN est[m + 1] - est[m] ELSE est[m] - est[IF m = 1 THEN Len(est) ELSE m - 1])
+              ELSE est[m] - est[m - 1]
+      phase == IF rint = 0 THEN (IF md = 0 THEN <<1, 1>> ELSE INF) ELSE RAbs(Norm(md, rint))
+      period == IF rint = 0 THEN (IF eint = 0 THEN <<0, 1>> ELSE INF) ELSE RAbs(RSub(<<1, 1>>, Norm(eint, rint)))
+  IN  LtThr(phase, pthr) /\ LtThr(period, qthr)
+RECURSIVE ContWalk(_, _, _, _, _, _, _)
+ContWalk(ref, est, m, used, succ, pthr, qthr) ==
+  IF m > Len(est) THEN succ
+  ELSE LET k == Nearest1(est[m], ref)
+           ok == k \notin used /\ ContBeatOK(ref, est, m, k, pthr, qthr)
+       IN  ContWalk(ref, est, m + 1, IF ok THEN used \cup {k} ELSE used, Append(succ, IF ok THEN 1 ELSE 0), pthr, qthr)
+RECURSIVE LongestRun(_, _, _, _)
+LongestRun(s, i, cur, best) == IF i > Len(s) THEN MaxI(cur, best)
+                               ELSE IF s[i] = 1 THEN LongestRun(s, i + 1, cur + 1, best) ELSE LongestRun(s, i + 1, 0, MaxI(cur, best))
+ContOne(ref, est, pthr, qthr) ==
+  LET succ == ContWalk(ref, est, 1, {}, <<>>, pthr, qthr)
+      n == MaxI(Len(ref), Len(est))
+  IN  <<Norm(LongestRun(succ, 1, 0, 0), n), Norm(SumSeq(succ), n)>>
+Continuity(ref, est, pthr, qthr) ==
+  IF Len(ref) <= 1 \/ Len(est) <= 1 THEN <<<<0, 1>>, <<0, 1>>, <<0, 1>>, <<0, 1>>>>
+  ELSE LET vs == Variations(ref)
+           rs == [v \in 1..5 |-> ContOne(vs[v], est, pthr, qthr)]
+           best(i) == CHOOSE x \in {rs[v][i] : v \in 1..5} : \A y \in {rs[v][i] : v \in 1..5} : RLeq(y, x)
+       IN  <<rs[1][1], rs[1][2], best(1), best(2)>>
+
+(* ---- Information gain (Davies et al. sec. 3.5): error of every estimated beat relative to the        *)
+(* interval around its nearest annotation (the preceding interval for an early beat, the following for   *)
+(* a late one; the only available interval at either end), wrapped to (-1/2, 1/2], histogrammed into      *)
+(* `bins` equal bins; the spec returns the counts (the entropy is evaluated by the harness) for both       *)
+(* directions, a flag when some error falls exactly on a bin edge, and a flag for the case in which        *)
+(* mir_eval departs from the toolbox's if / elseif / else (an estimate earlier than the first annotation). *)
+IGErr(ref, x) ==
+  LET k == Nearest1(x, ref)
+      err == x - ref[k]
+      gap == IF k = 1 THEN ref[2] - ref[1]
+             ELSE IF k = Len(ref) THEN ref[k] - ref[k - 1]
+             ELSE IF err < 0 THEN ref[k] - ref[k - 1] ELSE ref[k + 1] - ref[k]
+  IN  [e |-> Norm(err, gap), early |-> k = 1 /\ err < 0]
+(* wrap to (-1/2, 1/2] *)
+Wrap(e) == LET t == RAdd(e, <<1, 2>>)                \* t - ceil(t) + 1/2 ... in (-1,0] + 1/2
+               c == IF t[1] % t[2] = 0 THEN t[1] \div t[2] ELSE (t[1] \div t[2]) + 1
+           IN  RAdd(RSub(t, R(c)), <<1, 2>>)
+BinOf(e, bins) == LET y == RMul(RAdd(e, <<1, 2>>), R(bins))          \* in (0, bins]
+                      q == y[1] \div y[2]
+                  IN  [bin |-> IF y[1] % y[2] = 0 THEN (IF q = bins THEN bins ELSE q + 1) ELSE q + 1, edge |-> y[1] % y[2] = 0]
+IGCounts(ref, est, bins) ==
+  LET errs == [m \in 1..Len(est) |-> Wrap(IGErr(ref, est[m]).e)]
+      bs == [m \in 1..Len(est) |-> BinOf(errs[m], bins)]
+  IN  [counts |-> [b \in 1..bins |-> Cardinality({m \in 1..Len(est) : bs[m].bin = b})],
+       edge |-> \E m \in 1..Len(est) : bs[m].edge,
+       early |-> \E m \in 1..Len(est) : IGErr(ref, est[m]).early]
 =============================================================================
